@@ -9,7 +9,7 @@ RULE = ('histories of SortableDict / MetadataObject operations (store, add_item 
         'clear) replayed in lock-step on the real object and on a reference ordered-map model (list of pairs) of the '
         'documented semantics; after every history: same outcome (value or exception type) per step, unique keys, len, '
         'items(), at(), value_at(), index(), membership; rejected operations change nothing. Exhaustive: every history up to '
-        'the depth bound from each of 5 initial maps over 3-4 keys and all position arguments; Hypothesis: 40-step histories, '
+        'the depth bound from each of 5 initial maps over 3-4 keys and all position arguments; Hypothesis: 40-step histories over 6 keys and 30-step histories over 48 keys from initial maps of 0-48 entries with extend batches of up to 40 pairs (repeated keys included), '
         'order also observed through hszinc.dump of a grid carrying the map. Non-trivial = history contains a relocation '
         '(existing key with a position) or a rejected operation; distinct by (class, initial map, op list).')
 ASSUMPTIONS = ['relocation by numeric index is modelled as remove-then-insert at that index (doc-string is silent; the reading '
@@ -324,6 +324,35 @@ def check_dump_order(case):
 INITIALS = [[], ['a'], ['a', 'b'], ['a', 'b', 'c'], ['c', 'a', 'b'], ['a', 'b', 'c', 'd']]
 
 
+def hist_strategy(keys, max_idx, max_batch, initials, max_ops):
+    from hypothesis import strategies as st
+    key = st.sampled_from(keys)
+    idx = st.integers(0, max_idx)
+    addkw = st.one_of(
+        st.fixed_dictionaries({'index': idx, 'after': st.booleans()}),
+        st.fixed_dictionaries({'pos_key': key | st.just('zz'), 'after': st.booleans()}),
+        st.fixed_dictionaries({'replace': st.just(False)}),
+        st.fixed_dictionaries({'pos_key': key, 'after': st.booleans(), 'replace': st.just(False)}),
+        st.fixed_dictionaries({'index': idx, 'replace': st.booleans()}),
+        st.fixed_dictionaries({'index': idx, 'pos_key': key}),
+        st.just({}))
+    op = st.one_of(
+        key.map(lambda k: ['set', k]),
+        st.tuples(key, addkw).filter(lambda t: t[1].get('pos_key') != t[0]).map(lambda t: ['add', t[0], t[1]]),
+        key.map(lambda k: ['del', k]), key.map(lambda k: ['pop', k]), key.map(lambda k: ['setnone', k]), key.map(lambda k: ['popd', k]),
+        st.integers(-2, max_idx).map(lambda i: ['pop_at', i]), st.just(['sort']), st.just(['reverse']),
+        key.map(lambda k: ['append', k]), st.tuples(key, st.booleans()).map(lambda t: ['appendv', t[0], t[1]]),
+        st.tuples(st.lists(key, min_size=1, max_size=3, unique=True), st.sampled_from(['list', 'dict', 'sd'])).map(
+            lambda t: ['extend', t[0], t[1], True]),
+        st.tuples(key, st.sampled_from(['list', 'dict', 'sd'])).map(lambda t: ['extend', [t[0]], t[1], False]),
+        key.map(lambda k: ['setdefault', k]), st.just(['clear']), st.tuples(key, st.booleans()).map(lambda t: ['add_self', t[0], t[1]]),
+        st.lists(key, min_size=2, max_size=max_batch).map(lambda ks: ['extend', ks, 'list', True]),
+        st.lists(key, min_size=2, max_size=max_batch, unique=True).flatmap(lambda ks: st.sampled_from(['list', 'dict', 'sd']).map(lambda t: ['extend', ks, t, True])))
+    hist = st.fixed_dictionaries({
+        'cls': st.sampled_from(['mo', 'mv']), 'initial': st.sampled_from(initials), 'ops': st.lists(op, min_size=1, max_size=max_ops)})
+    return hist
+
+
 def plan(tier, seed, excl):
     q = tier == 'quick'
     t = []
@@ -334,6 +363,7 @@ def plan(tier, seed, excl):
             for sh in range(4 if q else 8):
                 t.append(('enum', {'cls': cls, 'init': ii, 'nkeys': 3 if q else 4, 'depth': 3, 'shard': sh, 'of': 4 if q else 8}))
     t += [('machine', {'shard': i, 'n': 300 if q else 6000}) for i in range(8)]
+    t += [('machine-big', {'shard': i, 'n': 250 if q else 5000}) for i in range(8)]
     return t
 
 
@@ -375,40 +405,22 @@ def run(part, args, env):
             depth, len(keys), len(alphabet), len(INITIALS))] = True
     else:
         from hypothesis import strategies as st
-        key = st.sampled_from(KEYS4 + ['e', ''])      # '' is a legal (falsy) key of a SortableDict
-        idx = st.integers(0, 6)
-        addkw = st.one_of(
-            st.fixed_dictionaries({'index': idx, 'after': st.booleans()}),
-            st.fixed_dictionaries({'pos_key': key | st.just('zz'), 'after': st.booleans()}),
-            st.fixed_dictionaries({'replace': st.just(False)}),
-            st.fixed_dictionaries({'pos_key': key, 'after': st.booleans(), 'replace': st.just(False)}),
-            st.fixed_dictionaries({'index': idx, 'replace': st.booleans()}),
-            st.fixed_dictionaries({'index': idx, 'pos_key': key}),
-            st.just({}))
-        op = st.one_of(
-            key.map(lambda k: ['set', k]),
-            st.tuples(key, addkw).filter(lambda t: t[1].get('pos_key') != t[0]).map(lambda t: ['add', t[0], t[1]]),
-            key.map(lambda k: ['del', k]), key.map(lambda k: ['pop', k]), key.map(lambda k: ['setnone', k]), key.map(lambda k: ['popd', k]),
-            st.integers(-2, 6).map(lambda i: ['pop_at', i]), st.just(['sort']), st.just(['reverse']),
-            key.map(lambda k: ['append', k]), st.tuples(key, st.booleans()).map(lambda t: ['appendv', t[0], t[1]]),
-            st.tuples(st.lists(key, min_size=1, max_size=3, unique=True), st.sampled_from(['list', 'dict', 'sd'])).map(
-                lambda t: ['extend', t[0], t[1], True]),
-            st.tuples(key, st.sampled_from(['list', 'dict', 'sd'])).map(lambda t: ['extend', [t[0]], t[1], False]),
-            key.map(lambda k: ['setdefault', k]), st.just(['clear']), st.tuples(key, st.booleans()).map(lambda t: ['add_self', t[0], t[1]]),
-            st.lists(key, min_size=2, max_size=4).map(lambda ks: ['extend', ks, 'list', True]))
-        hist = st.fixed_dictionaries({
-            'cls': st.sampled_from(['mo', 'mv']), 'initial': st.sampled_from(INITIALS + [['', 'a'], ['b', '', 'c']]), 'ops': st.lists(op, min_size=1, max_size=40)})
+        if part == 'machine-big':
+            keys = ['k%02d' % i for i in range(44)] + KEYS4
+            hist = hist_strategy(keys, 70, 40, [keys[:n] for n in (0, 7, 8, 9, 15, 16, 17, 31, 32, 33, 48)] + [keys[:40][::-1]], 30)
+        else:
+            hist = hist_strategy(KEYS4 + ['e', ''], 6, 4, INITIALS + [['', 'a'], ['b', '', 'c']], 40)      # '' is a legal (falsy) key of a SortableDict
 
         def body(case):
             r = check_history(case, excl)
             if r is None:
                 acc.excluded['sdict.relocate-forward'] += 1
                 return
-            acc.case(case, bool(r), labels=('machine', 'len:%d' % (len(case['ops']) // 10 * 10)))
+            acc.case(case, bool(r), labels=(part, 'len:%d' % (len(case['ops']) // 10 * 10), 'initial-size:%d' % len(case['initial'])))
             check_dump_order(case)
             if acc.want_sample() and len(case['ops']) < 12:
                 acc.sample(case)
-        run_hypothesis(acc, body, hist, args['n'], shard_seed(env['seed'], PROPERTY, args['shard']))
+        run_hypothesis(acc, body, hist, args['n'], shard_seed(env['seed'], PROPERTY, args['shard'], *(['big'] if part == 'machine-big' else [])))
     return acc
 
 
